@@ -206,4 +206,115 @@ def R4_wrap(run):
     wrap_discipline(run, "R4", 30)
 
 
-RULES = [R1_global_accrual, R2_collect, R3_set_emissions, R4_wrap]
+def R5_inside_and_crossing(run):
+    run.title("R5", "next_reward_growths_inside (both): per reward i, below = global_i if lower uninitialised, global_i - outside_lower[i] if current < lower index, else outside_lower[i]; "
+                    "above = 0 if upper uninitialised, outside_upper[i] if current < upper index, else global_i - outside_upper[i]; inside[i] = global_i - below - above (wrapping), same i "
+                    "everywhere, uninitialised rewards skipped; tick crossings in a swap use the reward growth accrued up to that swap (C07.R2/R6 instances)")
+    facts = run.facts
+    PM = "pinocchio::ported::manager_liquidity_manager::"
+    for path in ("manager::tick_manager::next_reward_growths_inside", PM + "pino_next_reward_growths_inside"):
+        fn = facts.need_fn(path)
+        run.touch(fn)
+        short = path.rsplit("::", 1)[-1]
+        ats = {}
+        for at in A.atoms(fn):
+            sterm = show(at.term)
+            c = at.cond()
+            if c is None and "initialized" in sterm and "reward_infos" not in sterm:
+                which = "lower" if "tick_lower" in sterm else "upper" if "tick_upper" in sterm else None
+                if which:
+                    ats[which + ".init"] = at
+            elif c:
+                op, x0, y0 = c
+                for (o, x, y) in ((op, x0, y0), (A.SWAP[op], y0, x0)):
+                    if o in ("Lt", "Ge") and is_param(x, "tick_current_index") and strip(y)[0] == "param" and strip(y)[1] in ("tick_lower_index", "tick_upper_index"):
+                        ats[strip(y)[1][5:10] + ".lt"] = (at, o)
+        if set(ats) != {"lower.init", "upper.init", "lower.lt", "upper.lt"}:
+            run.missing("R5", "atoms@" + short, "%s: expected the four tests (lower/upper initialised, current < lower/upper index), found %s" % (path, sorted(ats)), loc=fn.loc())
+            continue
+        skip = [at for at in A.atoms(fn) if "reward_infos" in show(at.term) and "initialized" in show(at.term)]
+        run.check("R5", "skip-uninitialised@" + short, len(skip) == 1, "%s no longer skips uninitialised rewards" % path, loc=fn.loc(), detail="!reward_infos[i].initialized() => continue")
+        # the store into the result array
+        st = None
+        for bi, bb in enumerate(fn.blocks):
+            for si, x in enumerate(bb["s"]):
+                if x["k"] == "=" and "p" in x["p"] and any(isinstance(e, dict) and "ix" in e for e in x["p"]["p"]) and fn.locals[x["p"]["l"]].get("n") == "reward_growths_inside":
+                    st = (bi, si, x)
+        if st is None:
+            run.missing("R5", "store@" + short, "no store to reward_growths_inside[i] in " + path, loc=fn.loc())
+            continue
+
+        def lt_assume(which, val):
+            at, o = ats[which + ".lt"]
+            return (at, val if o == "Lt" else (not val))
+
+        def idx_of(t):
+            """(kind, index term) of a per-reward operand."""
+            t = strip(t)
+            if t[0] == "field" and t[2] == "growth_global_x64" and strip(t[1])[0] == "index" and is_param(strip(t[1])[1], "reward_infos"):
+                return "global", strip(strip(t[1])[2])
+            if t[0] == "index" and is_param(t[1], "next_reward_growth_global"):
+                return "global", strip(t[2])
+            if t[0] == "index":
+                base = strip(t[1])
+                for which in ("lower", "upper"):
+                    if (base[0] == "field" and base[2] == "reward_growths_outside" and is_param(base[1], "tick_" + which)) or \
+                            (base[0] == "call" and base[1].endswith("reward_growths_outside") and is_param(base[2][0], "tick_" + which)):
+                        return "outside_" + which, strip(t[2])
+            if const_val(t) == 0:
+                return "zero", None
+            return "?" + sh(t, 40), None
+
+        def wsub(t):
+            t = strip(t)
+            if t[0] == "call" and t[1].endswith("wrapping_sub") and len(t[2]) == 2:
+                return t[2]
+            return None
+
+        def classify(t, which):
+            k, ix = idx_of(t)
+            if k in ("global", "zero"):
+                return k, ix
+            if k == "outside_" + which:
+                return "outside", ix
+            w = wsub(t)
+            if w:
+                k0, i0 = idx_of(w[0])
+                k1, i1 = idx_of(w[1])
+                if k0 == "global" and k1 == "outside_" + which and i0 == i1:
+                    return "global-outside", i0
+            return "?" + sh(t, 40), None
+        lower_cases = [("uninit", [(ats["lower.init"], False)], "global"), ("below", [(ats["lower.init"], True), lt_assume("lower", True)], "global-outside"),
+                       ("at-or-above", [(ats["lower.init"], True), lt_assume("lower", False)], "outside")]
+        upper_cases = [("uninit", [(ats["upper.init"], False)], "zero"), ("below", [(ats["upper.init"], True), lt_assume("upper", True)], "outside"),
+                       ("at-or-above", [(ats["upper.init"], True), lt_assume("upper", False)], "global-outside")]
+        bi, si, x = st
+        for (ln, la, lwant) in lower_cases:
+            for (un, ua, uwant) in upper_cases:
+                pv = prov_assuming(fn, la + ua)
+                ok = pv.flow.state_in[bi] is not None
+                got = "unreachable"
+                if ok:
+                    val = pv._rvalue(x["rv"], bi, si, 0)
+                    didx = [strip(pv.local(e["ix"], bi, si)) for e in x["p"]["p"] if isinstance(e, dict) and "ix" in e]
+                    w1 = wsub(val)
+                    w0 = wsub(w1[0]) if w1 else None
+                    ok = bool(w1 and w0)
+                    if ok:
+                        g, gi = idx_of(w0[0])
+                        below, bix = classify(w0[1], "lower")
+                        above, aix = classify(w1[1], "upper")
+                        got = "%s - %s - %s" % (g, below, above)
+                        same_ix = all(i is None or i == didx[0] for i in (gi, bix, aix)) and len(didx) == 1
+                        ok = g == "global" and (below, above) == (lwant, uwant) and same_ix
+                        if not same_ix:
+                            got += " (mixed reward indices)"
+                run.check("R5", "inside[lower=%s,upper=%s]@%s" % (ln, un, short), ok, "%s: with lower %s / upper %s relative to the current tick, inside[i] is %s; expected global - %s - %s with one index" %
+                          (path, ln, un, got, lwant, uwant), loc=fn.loc(), detail="global_i - %s - %s" % (lwant, uwant))
+    from rules.common import RuleProxy
+    from rules import C07
+    C07.R2_flip_on_cross(RuleProxy(run, "R5"))
+    C07.R6_swap_growth_handoff(RuleProxy(run, "R5"))
+
+
+RULES = [R1_global_accrual, R2_collect, R3_set_emissions, R4_wrap, R5_inside_and_crossing]
